@@ -120,8 +120,20 @@ def real_validate(start, init_slots, ex):
     return out
 
 
+_MODEL_CACHE = {}
+
+
 def model_validate(model, ex, init_ids, fuel=FUEL):
-    r = model.ask(ex.sexp(init_ids, fuel))
+    from common import sx
+
+    req = sx(ex.sexp(init_ids, fuel))
+    r = _MODEL_CACHE.get(req)
+    if r is None:
+        r = model.ask(req)
+        if len(req) > 2000:          # only the large requests are worth remembering (same routine, other option combo)
+            if len(_MODEL_CACHE) > 64:
+                _MODEL_CACHE.clear()
+            _MODEL_CACHE[req] = r
     if r and r[0] == S("ok"):
         return list(r[1][1:]), r[2][1], r[3][1]
     return r, None, None
